@@ -234,6 +234,10 @@ func leafClasses(r *rand.Rand, draws int) []leafCase {
 						kind = p.lo.name
 					}
 					out = append(out, leafCase{"range:" + br + ":" + open + ":" + kind, qt.Range(f, lo, hi, incl), ""})
+					if open == "none" && d < 2 {
+						// the same bounds the other way round: a range that holds nothing must stay empty
+						out = append(out, leafCase{"range:" + br + ":" + open + ":" + kind, qt.Range(f, hi, lo, incl), ""})
+					}
 				}
 			}
 		}
